@@ -188,7 +188,9 @@ func (r *Run) Finish(out string) {
 	if r.Res.Samples == nil {
 		r.Res.Samples = []any{}
 	}
-	sort.Slice(r.Res.Failures, func(i, j int) bool { return r.Res.Failures[i].Kind+r.Res.Failures[i].Class < r.Res.Failures[j].Kind+r.Res.Failures[j].Class })
+	sort.Slice(r.Res.Failures, func(i, j int) bool {
+		return r.Res.Failures[i].Kind+r.Res.Failures[i].Class < r.Res.Failures[j].Kind+r.Res.Failures[j].Class
+	})
 	b, _ := json.MarshalIndent(r.Res, "", " ")
 	if out == "" {
 		os.Stdout.Write(b)
